@@ -132,6 +132,11 @@ def main():
             continue
         path = os.path.join(REPO, file)
         src = open(path).read()
+        if src.count(old) == 0:
+            # the block may have been moved one level deeper (Worker::run after fix 0c182fc)
+            re_in = lambda t: "\n".join(("    " + l if l.strip() else l) for l in t.split("\n"))
+            if src.count(re_in(old)) == 1:
+                old, new = re_in(old), re_in(new)
         if src.count(old) != 1:
             print(f"[{mid}] SKIP: pattern occurs {src.count(old)} times in {file}")
             results.append((mid, "pattern-missing", {}))
